@@ -89,6 +89,61 @@ def unit_seq_corr(args):
     return res
 
 
+BUF_FAMS = [1, 2, 4, 5]
+BUF_PROFILES = {
+    # name: dict of generator parameters
+    "basic": dict(p_read=0.35, p_miss=0.15, p_ext=0.0, p_ctx=0.2, p_cap=0.0),
+    "caps": dict(p_read=0.3, p_miss=0.15, p_ext=0.0, p_ctx=0.22, p_cap=0.7),
+    "joint": dict(p_read=0.4, p_miss=0.15, p_ext=0.0, p_ctx=0.2, p_cap=0.2, joint=True),
+    "conflict": dict(p_read=0.3, p_miss=0.1, p_ext=0.12, p_ctx=0.25, p_cap=0.3),
+    "readonly": dict(p_read=0.97, p_miss=0.1, p_ext=0.0, p_ctx=0.3, p_cap=0.3),
+}
+
+
+def unit_buf_corr(args):
+    """model-vs-code correspondence for one generated program on a buffered class"""
+    fam_index, seed, profile, n_steps = args
+    import bgen
+    from proto import Runner
+    ns = env.load()
+    fam = ns.families[fam_index]
+    rng = random.Random((seed * 6151 + fam_index) * 13 + sum(map(ord, profile)))
+    params = dict(BUF_PROFILES[profile])
+    drive.reset_class_state(ns)
+    try:
+        with drive.Scratch() as tmp:
+            world = World(ns, fam, tmp)
+            runner = Runner(ns, world)
+            g = bgen.BufGen(rng, runner, fam, **params)
+            is_dict, ops = bgen.buf_setup(rng, g, objs_per_res=2 if params.get("joint") else None)
+            runner.bcls = fam.dict_cls if is_dict else fam.list_cls
+            lines = [runner.exec(op) for op in ops]
+            for _ in range(n_steps):
+                op = g.step()
+                ops.append(op)
+                lines.append(runner.exec(op))
+            for op in g.closing():
+                ops.append(op)
+                lines.append(runner.exec(op))
+        got = model_driver(ns).run(drive.op_lines(ops, fam.index),
+                                   reset="breset %d %s" % (fam.index, "mem" if fam.buffered == "memory" else "ser"))
+    except Exception:  # noqa: BLE001
+        return dict(kind="corr", fam=fam_index, seed=seed, profile=profile, crash=traceback.format_exc())
+    finally:
+        drive.reset_class_state(ns)
+    d = drive.first_diff(lines, got)
+    hist = collections.Counter(op[2] if op[0] == "call" else op[0] for op in ops)
+    errs = collections.Counter(l[0].split()[1] for l in lines if l[0].startswith("err"))
+    res = dict(kind="corr", fam=fam_index, seed=seed, profile=profile, steps=len(ops), hist=dict(hist),
+               errors=sum(errs.values()), err_kinds=dict(errs), diff=None, suite="unit_buf_corr")
+    if d is not None:
+        res["diff"] = dict(at=d, ops=ops[: d + 1], line=drive.op_lines(ops, fam.index)[d],
+                           real=lines[d], model=got[d] if d < len(got) else None)
+    elif seed % 50 == 0:
+        res["sample"] = [drive.op_lines(ops, fam.index)[i] + "  =>  " + lines[i][0] for i in range(min(len(ops), 8))]
+    return res
+
+
 def run_shadow(ns, fam, ops, stop_on_violation=True):
     """replay a fixed op list under the shadow oracle"""
     drive.reset_class_state(ns)
